@@ -120,7 +120,7 @@ pub fn run(ctx: &mut Ctx) {
             0 | 1 => None,
             2 => Some("".into()),
             3 => Some("Debug, Clone".into()),
-            _ => Some(rng.pick(&["Deserialize", " ", "Debug,  PartialEq ", "serde::Serialize", "A(B)"]).to_string()),
+            _ => Some(rng.pick(&["Deserialize", " ", "Debug,  PartialEq ", "serde::Serialize", "A(B)", "+Debug", "+", "#[derive(Debug)]", "#[x]", "Debug, +Clone", "@file", "=Debug"]).to_string()),
         };
         let sort = *rng.pick(&[None, Some(false), Some(true)]); // Some(true) = name
         // ---- the property itself, from the library called directly
@@ -410,12 +410,23 @@ pub fn run(ctx: &mut Ctx) {
                 Stdout,              // exit 0, stdout = expected + "\n"
                 File(std::path::PathBuf), // exit 0, stdout empty, the file = expected
                 Fault,               // exit 1, stderr, nothing on stdout
+                Silent,              // exit 0, nothing on stdout
+                StdoutNoNewline,     // exit 0, stdout = expected (the file form: no trailing newline)
             }
             let mut scen: Vec<(&str, Vec<String>, Vec<u8>, Option<Vec<u8>>, Want)> = vec![];
             let f_in = sdir.join("model in \u{e9}.xml");
             std::fs::write(&f_in, doc).unwrap();
             let ps = |p: &std::path::Path| p.to_string_lossy().to_string();
             scen.push(("input:path-with-blank-and-non-ascii", vec![ps(&f_in)], vec![], None, Want::Stdout));
+            // a path that contains list separators; the halves exist as other files
+            let f_comma = sdir.join("export,v2;x:y.xml");
+            std::fs::write(&f_comma, doc).unwrap();
+            std::fs::write(sdir.join("export"), b"<other k=\"1\"/>").unwrap();
+            std::fs::write(sdir.join("v2;x:y.xml"), b"<other2/>").unwrap();
+            scen.push(("input:path-with-comma-semicolon-colon", vec![ps(&f_comma)], vec![], None, Want::Stdout));
+            // the output goes to a device: everything is written, nothing to see, exit 0
+            scen.push(("output:/dev/null", vec![ps(&f_in), "/dev/null".to_string()], vec![], None, Want::Silent));
+            scen.push(("output:/dev/stdout", vec![ps(&f_in), "/dev/stdout".to_string()], vec![], None, Want::StdoutNoNewline));
             // a directory holding documents is not a document
             let d_in = sdir.join("indir");
             let _ = std::fs::create_dir_all(&d_in);
@@ -535,6 +546,16 @@ pub fn run(ctx: &mut Ctx) {
                         }
                         if std::fs::read(f).ok().as_deref() != Some(expected.as_bytes()) {
                             why.push("the named output file is not exactly header + library rendering".into());
+                        }
+                    }
+                    Want::Silent => {
+                        if exit != 0 || !stdout.is_empty() {
+                            why.push(format!("exit {} stdout {} bytes stderr {:?}; expected exit 0 and nothing on stdout", exit, stdout.len(), String::from_utf8_lossy(&o.stderr)));
+                        }
+                    }
+                    Want::StdoutNoNewline => {
+                        if exit != 0 || stdout != expected.as_bytes() {
+                            why.push(format!("exit {} stdout {} bytes; expected exit 0 and exactly header + library rendering ({} bytes)", exit, stdout.len(), expected.len()));
                         }
                     }
                     Want::Fault => {
